@@ -403,3 +403,32 @@ Qed.
 
 Lemma request_cache_control_total e : exists d, request_cache_control e = Ok d.
 Proof. apply parse_cache_control_total. Qed.
+
+(* ------------------------------------------------------------------ more Request attributes *)
+Lemma request_full_path_total e : forallb (fun c => c <? 256) (m_query e) = true -> exists t, request_full_path e = Ok t.
+Proof.
+  intro H. unfold request_full_path. change full_path_decode_replace with true. destruct (query_text_total _ H) as [q ->]. cbn [bind]. eauto.
+Qed.
+
+Lemma request_access_route_total e : exists l, request_access_route e = Ok l.
+Proof. unfold request_access_route. destruct (m_forwarded_for e); [eauto|]. destruct (m_remote_addr e); eauto. Qed.
+
+Lemma request_accept_total h : exists l, request_accept h = Ok l.
+Proof. destruct h; [apply parse_accept_items_total|cbn; eauto]. Qed.
+
+Lemma request_if_range_total (D : Type) (parsedate : str -> res D) :
+  (forall s e, parsedate s = Err e -> is_type_error e || is_value_error e || is_overflow_error e = true) ->
+  forall e, exists r, request_if_range parsedate e = Ok r.
+Proof.
+  intros Hc e. unfold request_if_range. destruct (m_if_range e) as [[|c r]|]; [eauto| |eauto].
+  destruct (parse_date_over_total D parsedate Hc (@Some str (c :: r))) as [o Ho].
+  destruct o as [d|]; eexists; rewrite Ho; reflexivity.
+Qed.
+
+Definition s_http : str := [104; 116; 116; 112].
+Lemma request_url_port_refuted :
+  request_url_port {| u_scheme := s_http; u_host := Some s_x_abc; u_server := Some ([108], Some [56; 48]) |} = Err ValueError.
+Proof. vm_compute. reflexivity. Qed.
+
+Lemma request_url_port_partial e : host_port_ok (get_host (u_scheme e) (u_host e) (u_server e)) = true -> exists p, request_url_port e = Ok p.
+Proof. apply url_port_partial. Qed.
